@@ -337,7 +337,19 @@ class Body:
                     o2 = {x for x in o2 if x[0] != t["dest"][0]}
                 if t["k"] == "yield" and len(t["resume_arg"]) == 1 and s == t.get("resume"):
                     o2 = {x for x in o2 if x[0] != t["resume_arg"][0]}
-                new = frozenset(o2) if entry[s] is ALL else frozenset(entry[s] & o2)
+                if t["k"] == "switch":
+                    # on the edge on which an `Option` local was found to be `None` there is nothing left in it to drop
+                    # (`match R.try_write() { Some(g) => g, None => R.write().await }`: the temporary is empty on the None arm)
+                    nl = self._none_edge_local(bi, s)
+                    if nl is not None:
+                        o2.add((nl, "*"))
+                if entry[s] is ALL:
+                    new = frozenset(o2)
+                else:
+                    # meet: moved on both paths — where one path moved the whole local, the pieces the other one moved stay
+                    a_, b_ = entry[s], o2
+                    wa, wb = {x[0] for x in a_ if x[1] == "*"}, {x[0] for x in b_ if x[1] == "*"}
+                    new = frozenset((a_ & b_) | {x for x in a_ if x[0] in wb} | {x for x in b_ if x[0] in wa})
                 if entry[s] is ALL or new != entry[s]:
                     entry[s] = new
                     work.append(s)
@@ -350,6 +362,54 @@ class Body:
             res[bi] = d
         self._mm = res
         return res
+
+    def _none_edge_local(self, bi, succ):
+        """if block bi ends in a switch on the discriminant of a plain `Option` local and `succ` is where it goes for `None`:
+        that local"""
+        blk = self.blocks[bi]
+        t = blk["t"]
+        if not blk["s"] or t.get("o", {}).get("k") not in ("move", "copy"):
+            return None
+        last = blk["s"][-1]
+        r = last.get("r") or {}
+        if not (last.get("k") == "assign" and r.get("k") == "discr" and r.get("adt") == "core::option::Option" and last.get("p") == t["o"]["p"] and len(r.get("p", [])) == 1):
+            return None
+        variants = r.get("variants", {})
+        named = {val: variants.get(val) for val, _tg in t["targets"]}
+        for val, tg in t["targets"]:
+            if tg == succ and named.get(val) == "None" and [x for x in t["targets"] if x[1] == succ] == [[val, tg]] and t.get("otherwise") != succ:
+                return r["p"][0]
+        if t.get("otherwise") == succ and all(tg != succ for _v, tg in t["targets"]):
+            rest = [n for v, n in variants.items() if v not in named]
+            if rest == ["None"]:
+                return r["p"][0]
+        return None
+
+    def return_aliases(self):
+        """locals through which the returned value is handed to the return place: `_0 = move r` with `r` assigned once from another
+        local, or taken out of the `Poll::Ready(h)` an inlined awaited helper ends in — [0, r, h, ..]"""
+        def defs(loc):
+            return [st for bl in self.blocks if not bl["c"] for st in bl["s"] if st["k"] == "assign" and st["p"] == [loc]]
+        out = [0]
+        work = [0]
+        while work and len(out) < 8:
+            l = work.pop()
+            for st in defs(l):
+                r = st["r"]
+                if r["k"] != "use" or r["o"].get("k") not in ("move", "copy"):
+                    continue
+                p = r["o"]["p"]
+                nxt = None
+                if len(p) == 1:
+                    nxt = p[0]
+                elif len(p) == 3 and str(p[1]).endswith(":Ready") and p[2] == "f0":
+                    pd = defs(p[0])
+                    if len(pd) == 1 and pd[0]["r"].get("k") == "agg" and pd[0]["r"].get("variant") == "Ready" and len(pd[0]["r"].get("ops", [])) == 1 and pd[0]["r"]["ops"][0].get("k") in ("move", "copy") and len(pd[0]["r"]["ops"][0]["p"]) == 1:
+                        nxt = pd[0]["r"]["ops"][0]["p"][0]
+                if nxt is not None and nxt not in out and nxt > self.b.get("arg_count", 0):
+                    out.append(nxt)
+                    work.append(nxt)
+        return out
 
     def drop_is_noop_for(self, bi, local, holds):
         """Is the Drop of `local` at block bi certainly not dropping a value for which holds(type) is true?
